@@ -80,6 +80,10 @@ def check(run: Run) -> None:
         clear = R.store_is(r".*last_modified_time", r"MIN_DT")
         R.k2_precede(run, "C04.b", fl, R.call_is(name="notify", recv=r".*observers"), clear, "invalidate notifies observers before clearing the timestamp")
         R.k2_precede(run, "C04.b", fl, R.call_is(name="notify_child_modified"), clear, "invalidate notifies the parent before clearing the timestamp")
+        # children are invalidated BEFORE the node's own timestamp is cleared: a child's invalidation notifies this node as its parent and
+        # would re-stamp it (the node would stay valid after invalidate)
+        R.k2_never_after(run, "C04.b", fl, clear, lambda n: n.kind == "call" and n.name in ("invalidate", "notify_child_modified", "record_modified", "notify"),
+                         "a child invalidation / notification after the node's own timestamp was cleared")
 
     with run.obligation("C04.c", "K1", "modified(t) iff t!=MIN_DT and last==t; a delta is readable only in its own cycle; input valid iff data "
                         "valid and has a current value"):
@@ -221,6 +225,7 @@ VARIANTS = [
     {"id": "a-notify-before-store", "expect": "C04.a", "edits": [{"file": TYPES, "find": "        last_modified_time = modified_time;\n        observers.notify(modified_time);", "replace": "        observers.notify(modified_time);\n        last_modified_time = modified_time;"}]},
     {"id": "b-foreign-writer", "expect": "C04.b", "edits": [{"file": BASE, "find": "bool TSDataMutationView::copy_value_from(const ValueView &source) {\n  require_active_mutation();\n", "replace": "bool TSDataMutationView::copy_value_from(const ValueView &source) {\n  require_active_mutation();\n  ops().mutable_tracking_impl(ops().context, storage_.data())->last_modified_time = mutation_time_;\n"}]},
     {"id": "b-invalidate-clears-first", "expect": "C04.b", "edits": [{"file": BASE, "find": "  state.observers.notify(mutation_time_);\n  state.parent.notify_child_modified(mutation_time_);\n  state.last_modified_time = MIN_DT;", "replace": "  state.last_modified_time = MIN_DT;\n  state.observers.notify(mutation_time_);\n  state.parent.notify_child_modified(mutation_time_);"}]},
+    {"id": "b-invalidate-self-before-children", "expect": "C04.b", "edits": [{"file": BASE, "find": "  const auto &table = current.ops();\n  if (const auto *ownership = table.ownership_ops; ownership != nullptr) {", "replace": "  const auto &table = current.ops();\n  {\n    auto &state0 = *table.mutable_tracking_impl(table.context, storage_.data());\n    state0.observers.notify(mutation_time_);\n    state0.parent.notify_child_modified(mutation_time_);\n    state0.last_modified_time = MIN_DT;\n  }\n  if (const auto *ownership = table.ownership_ops; ownership != nullptr) {"}, {"file": BASE, "find": "  state.observers.notify(mutation_time_);\n  state.parent.notify_child_modified(mutation_time_);\n  state.last_modified_time = MIN_DT;\n  return true;", "replace": "  return true;"}]},
     {"id": "c-modified-ge", "expect": "C04.c", "edits": [{"file": BASE, "find": "         tracking().last_modified_time == evaluation_time;", "replace": "         tracking().last_modified_time >= evaluation_time;"}]},
     {"id": "c-stale-delta", "expect": "C04.c", "edits": [{"file": BASE, "find": "  if (evaluation_time == MIN_DT ||\n      data_tracking->last_modified_time != evaluation_time) {\n    return ValueView{data_layout->delta_binding, nullptr};", "replace": "  if (evaluation_time == MIN_DT ||\n      data_tracking->last_modified_time == MIN_DT) {\n    return ValueView{data_layout->delta_binding, nullptr};"}]},
     {"id": "c-input-valid-unbound", "expect": "C04.c", "edits": [{"file": INPUT, "find": "return data.valid() && data.has_current_value();", "replace": "return data.valid();"}]},
